@@ -9,6 +9,7 @@
   EVERY interleaving (`Reach` quantifies over all schedules), with synchronous sends (`Step.rdv` needs both heads).
 -/
 import NiftyVerif.Lemmas.AllreduceTree
+import NiftyVerif.Lemmas.AllreduceFull
 
 namespace NiftyVerif.C23
 open NiftyVerif.Allreduce
@@ -79,7 +80,7 @@ theorem tree_eval_sum {α} [AddMonoid α] (x : Nat → α) (n : Nat) (hn : 0 < n
     (all MPI gives with default tags) never pairs a message with the wrong receive -/
 theorem matched_pair_is_one_event {who E init k st a b e e' ra rb} (h : Reach who E init k st)
     (ha : st.prog a = .recv b e :: ra) (hb : st.prog b = .send a e' :: rb) : e = e' := by
-  obtain ⟨R, hR, _, _⟩ := inv_reach h
+  obtain ⟨R, hR, _, _, _⟩ := inv_reach h
   exact (rdv_same_event hR ha hb).1
 
 /-- **projection_deadlock_free**: every reachable state in which some rank has not finished has an enabled
@@ -90,7 +91,7 @@ theorem projection_deadlock_free {who E init k st} (h : Reach who E init k st) (
 
 /-- every run has at most `|E|` transitions: no livelock -/
 theorem runs_bounded {who E init k st} (h : Reach who E init k st) : k ≤ E.length := by
-  obtain ⟨R, _, _, hlen⟩ := inv_reach h
+  obtain ⟨R, _, _, hlen, _⟩ := inv_reach h
   omega
 
 /-- **schedule_independent**: every maximal run (a reachable state without successor) — whatever the interleaving —
@@ -163,6 +164,57 @@ theorem compound_messages_ordered (t : Ty) : sendSeq t = recvSeq t ∧ 0 < (send
   | ndarray => exact ⟨rfl, by decide⟩
   | field t ih => exact ⟨by simp [sendSeq, recvSeq, ih.1], by simp [sendSeq]⟩
   | multifield k => exact ⟨rfl, by simp [sendSeq]⟩
+
+/-! ### the complete protocol: leading collectives, point-to-point phase, trailing collectives of `_bcast` -/
+
+/-- the owner map of an ordered partition only names existing ranks -/
+theorem whoOf_lt (counts : List Nat) (hp : 0 < counts.length) (j : Nat) : whoOf counts j < counts.length := by
+  unfold whoOf
+  rcases Nat.lt_or_ge j (whoList counts).length with h | h
+  · rw [List.getD_eq_getElem?_getD, List.getElem?_eq_getElem h]
+    have hm : (whoList counts)[j] ∈ whoList counts := List.getElem_mem h
+    simp only [whoList, List.mem_flatMap, List.mem_range, List.mem_replicate] at hm
+    obtain ⟨t, ht, _, heq⟩ := hm
+    have heq' : (whoList counts)[j] = t := heq
+    simp only [Option.getD_some, heq']
+    exact ht
+  · rw [List.getD_eq_getElem?_getD, List.getElem?_eq_none h]
+    simpa using hp
+
+/-- **full_protocol_deadlock_free**: with the collectives included (a collective completes only when ALL `p` ranks have
+    entered it), every reachable state of the complete `allreduce_sum` protocol in which some rank is unfinished can move -/
+theorem full_protocol_deadlock_free {p who pre post E init k st} (hw : ∀ e ∈ E, who e.dst < p ∧ who e.src < p)
+    (hp : 0 < p) (h : FReach p who pre post E init k st) (hne : ∃ r, st.prog r ≠ []) : ∃ st', FStep p st st' :=
+  finv_progress hw hp (finv_reach hw hp h) hne
+
+/-- **full_protocol_schedule_independent**: every maximal run of the complete protocol has finished all ranks, took
+    exactly `|pre| + |E| + |post|` transitions and leaves the serial result in the slots -/
+theorem full_protocol_schedule_independent {p who pre post E init k st} (hw : ∀ e ∈ E, who e.dst < p ∧ who e.src < p)
+    (hp : 0 < p) (h : FReach p who pre post E init k st) (hmax : ¬ ∃ st', FStep p st st') :
+    (∀ r, st.prog r = []) ∧ st.store = execAll E init ∧ k = pre.length + E.length + post.length := by
+  have hfin : ∀ r, st.prog r = [] := by
+    intro r
+    by_cases hr : st.prog r = []
+    · exact hr
+    · exact absurd (full_protocol_deadlock_free hw hp h ⟨r, hr⟩) hmax
+  exact ⟨hfin, finv_final hw hp (finv_reach hw hp h) hfin⟩
+
+/-- **full_allreduce_all_schedules**: `allreduce_sum(obj, comm)` on `p = counts.length ≥ 1` ranks holding
+    `counts` summands each (any ordered partition, empty ranks allowed, `n ≥ 1` summands in total), compound transfers
+    of `m ≥ 1` messages, any leading/trailing collectives: under EVERY interleaving with synchronous sends and
+    barrier-like collectives the protocol terminates with every rank finished and slot 0 (on the broadcast root
+    `who 0`) holding the fixed pairwise tree -/
+theorem full_allreduce_all_schedules (counts : List Nat) (hp : 0 < counts.length) (n : Nat) (hn : 0 < n)
+    (m : Nat) (hm : 0 < m) (pre post : List Nat) {k st}
+    (h : FReach counts.length (whoOf counts) pre post (expand (whoOf counts) m (events n)) (initStore n) k st)
+    (hmax : ¬ ∃ st', FStep counts.length st st') :
+    (∀ r, st.prog r = []) ∧ st.store 0 = some (pairwiseTree n) := by
+  have hw : ∀ e ∈ expand (whoOf counts) m (events n), whoOf counts e.dst < counts.length ∧ whoOf counts e.src < counts.length :=
+    fun e _ => ⟨whoOf_lt counts hp _, whoOf_lt counts hp _⟩
+  obtain ⟨h1, h2, _⟩ := full_protocol_schedule_independent hw hp h hmax
+  refine ⟨h1, ?_⟩
+  rw [h2, execAll_expand _ m hm _ _ (events_fin n), tree_value n hn 0]
+  rfl
 
 /-! ### non-vacuity -/
 
